@@ -28,13 +28,14 @@ type HarnessDef struct {
 }
 
 type PropDef struct {
-	ID          string
-	Harnesses   []HarnessDef
-	Exhaustive  bool
-	Pkgs        []string
-	Bounds      string
-	Assumptions []string
-	Outside     string
+	ID           string
+	Harnesses    []HarnessDef
+	Exhaustive   bool
+	Pkgs         []string
+	AssertPrefix string
+	Bounds       string
+	Assumptions  []string
+	Outside      string
 }
 
 type Finding struct {
@@ -152,6 +153,7 @@ func RunCheck(cfg CheckConfig) int {
 	loadS := time.Since(t0).Seconds()
 	P.OpenFindings = map[string]bool{}
 	P.WantKnownVectors = true
+	P.AssertPrefix = pd.AssertPrefix
 	findingText := map[string]Finding{}
 	for _, f := range findings {
 		if f.Status == "open" && f.Property == cfg.Property {
@@ -188,6 +190,7 @@ func RunCheck(cfg CheckConfig) int {
 	var violLines []string
 	var knownLines []string
 	replayDir := filepath.Join(cfg.Verif, "replays", cfg.Property)
+	idReached := map[string]bool{} // vacuity: every assertion of the property is reached by some harness
 
 	for _, hd := range pd.Harnesses {
 		if hd.ThoroughOnly && cfg.Tier != "thorough" {
@@ -260,11 +263,14 @@ func RunCheck(cfg CheckConfig) int {
 			opt[o] = true
 		}
 		for _, id := range ids {
-			assertsTotal++
-			if r.Reached[id] > 0 {
-				assertsReached++
-			} else if !opt[id] {
-				problems = append(problems, fmt.Sprintf("%s: assertion %s never reached (vacuous harness)", hd.Name, id))
+			if pd.AssertPrefix != "" && !strings.HasPrefix(id, pd.AssertPrefix) {
+				continue
+			}
+			if _, seen := idReached[id]; !seen {
+				idReached[id] = false
+			}
+			if r.Reached[id] > 0 || opt[id] {
+				idReached[id] = true
 			}
 		}
 		// native replays: samples (translator validation) and violation candidates
@@ -342,6 +348,14 @@ func RunCheck(cfg CheckConfig) int {
 		}
 	}
 
+	for id, ok := range idReached {
+		assertsTotal++
+		if ok {
+			assertsReached++
+		} else {
+			problems = append(problems, fmt.Sprintf("assertion %s never reached on a feasible path by any harness of the property (vacuous)", id))
+		}
+	}
 	// known findings listed open but not observed are reported (not an error)
 	for fid := range P.OpenFindings {
 		seen := false
